@@ -885,6 +885,11 @@ def run(rep, ctx):
         r01_13(rep, M, "R01.13")
     with rep.guard("R01.14"):
         r01_14(rep, M, "R01.14")
+    rep.rule("R01.15", "every exception handler on the paths of get_clusters is a confirmed one (nothing swallows or converts failures)")
+    with rep.guard("R01.15"):
+        from .. import handlers
+        handlers.check(rep, M, "R01.15", M.reachable([GC]))
+    rep.floor("R01.15", 8)
     rep.floor("R01.14", 2)
     rep.floor("R01.11", 2)
     rep.floor("R01.12", 2)
